@@ -62,8 +62,30 @@ let run_script cfgw ops =
       | "C" :: f :: r -> emit (show_out (st (OClear (f = "1")))); go r
       | "T" :: r -> emit (show_out (st OTraverse)); go r
       | "U" :: r -> emit (show_out (ws (WB OTraverse))); go r
+      | "L" :: m :: q :: r ->
+        (* explicit iterator loop: it = GetBegin(); while (it) { if (pred) it = Remove(it); else ++it; }  on the iterator machine *)
+        let md = z m and rq = z q in
+        let it = ref (it_begin_cfg !w.wa) and cnt = ref 0 and seen = ref [] in
+        let continue = ref true in
+        while !continue do
+          match it_get_cfg !w.wa !it with
+          | None -> continue := false
+          | Some (k, _) ->
+            seen := sz k :: !seen;
+            if Z.equal (Z.erem (zarith_of_z k) (zarith_of_z md)) (zarith_of_z rq) then begin
+              let (s', it') = it_remove_cfg c !w.wa !it in
+              w := { !w with wa = s' }; it := it'; incr cnt end
+            else it := it_next_cfg !w.wa !it
+        done;
+        emit (string_of_int !cnt ^ "[" ^ String.concat ";" (List.rev !seen) ^ "]"); go r
       | "O" :: r ->
-        let l = all () in
+        (* the exact iteration order, produced by the iterator machine (it_begin / it_get / it_next) *)
+        let l = (let acc = ref [] and it = ref (it_begin_cfg !w.wa) and go_on = ref true in
+                 while !go_on do
+                   match it_get_cfg !w.wa !it with
+                   | None -> go_on := false
+                   | Some x -> acc := x :: !acc; it := it_next_cfg !w.wa !it
+                 done; List.rev !acc) in
         emit ("[{" ^ String.concat "," (List.map (fun (k, v) -> sz k ^ ":" ^ sz v) l) ^ "}]"); go r
       | "N" :: r -> emit (show_out (st OCount)); go r
       | "Y" :: r -> emit (show_out (st OCopy)); go r
@@ -82,7 +104,7 @@ let () = iter_lines (fun line ->
     let bc = two_pow (z log) in
     Printf.printf "%s %s\n" (sz (calc_capacity (z pol) (z mc) bc)) (sz (shift_fn (z pol) (z mc) bc))
   | ["sh"; kind; hc] ->
-    let f = if kind = "0" then Gen_LimP4.pvCalcShortHash else if kind = "1" then Gen_Open2N2.pvCalcShortHash else Gen_OpenN1.ptCalcShortHash in
+    let f = if kind = "0" then Gen_LimP4.pvCalcShortHash else if kind = "1" then Gen_Open2N2.pvCalcShortHash else if kind = "3" then Gen_Open2N2w.pvCalcShortHash else Gen_OpenN1.ptCalcShortHash in
     print_endline (sz (f (z hc)))
   | ["idx"; probing; hc; log; idx; probe] ->
     let bc = two_pow (z log) in
